@@ -2754,6 +2754,12 @@ impl<'ctx> ByteCompiler<'ctx> {
     pub fn finish(mut self) -> CodeBlock {
         // Push return at the end of the function compilation.
         if let Some(async_handler) = self.async_handler {
+            // The body may end with more environments open than the handler restores: drop them,
+            // so that both paths reach the epilogue with the same environment depth.
+            let expected = self.handlers[async_handler as usize].environment_count;
+            for _ in expected..self.current_open_environments_count {
+                self.bytecode.emit_pop_environment();
+            }
             self.patch_handler(async_handler);
         }
         self.r#return(None);
